@@ -55,6 +55,30 @@ def _cut_short(loop: ast.AST) -> bool:
                for st in body)
 
 
+def _cut_kind(loop: ast.AST) -> str:
+    """"break": the loop has a ``break`` of its own (elements after that point
+    are not visited: ``upto``); "return": it only leaves through ``return``
+    (a search - every element is examined until the answer is known:
+    ``first``); "": it visits every element (``each``)."""
+    kinds: set[str] = set()
+
+    def rec(n: ast.AST, own: bool) -> None:
+        for c in ast.iter_child_nodes(n):
+            if isinstance(c, (ast.FunctionDef, ast.AsyncFunctionDef,
+                              ast.Lambda, ast.ClassDef)):
+                continue
+            if isinstance(c, ast.Return):
+                kinds.add("return")
+            if isinstance(c, ast.Break) and own:
+                kinds.add("break")
+            rec(c, own and not isinstance(c, (ast.For, ast.While,
+                                              ast.AsyncFor)))
+    for st in getattr(loop, "body", []):
+        rec(ast.Module(body=[st], type_ignores=[]), True)
+    return "break" if "break" in kinds else (
+        "return" if "return" in kinds else "")
+
+
 class Roles:
     def __init__(self, ctx: "object", fi: FuncInfo) -> None:
         self.ctx = ctx
@@ -128,7 +152,10 @@ class Roles:
                         self.side += self.expand(c, True, env2, loc2)
                 return self._of(src.elt, loc2, env2, d)
             it = self._iter(val, stmt, env, d)
-            q = "upto" if kind == "for" and _cut_short(stmt) else "each"
+            q = "each"
+            if kind == "for":
+                q = {"break": "upto", "return": "first", "": "each"}[
+                    _cut_kind(stmt)]
             return f"{q}({it})" + self._index(tgt, name)
         if kind == "assign" and val is not None:
             if isinstance(tgt, ast.Name) or tgt is None:
